@@ -728,6 +728,7 @@ class TextXMetaModel(DebugPrinter):
             raise TextXError("textX accepts only strings.")
 
         if file_name is None:
+            known_models = self._known_model_ids()
 
             def kwargs_callback(other_model):
                 if hasattr(other_model, "_tx_metamodel"):
@@ -739,8 +740,7 @@ class TextXMetaModel(DebugPrinter):
                 model_str, debug=debug, pre_ref_resolution_callback=kwargs_callback
             )
 
-            for p in self._model_processors:
-                p(model, self)
+            self._call_model_processors(model, known_models)
         else:
             model = self.internal_model_from_file(
                 file_name,
@@ -780,6 +780,7 @@ class TextXMetaModel(DebugPrinter):
         file_name = abspath(file_name)
         model = None
         callback = pre_ref_resolution_callback
+        known_models = self._known_model_ids()
 
         if hasattr(self, "_tx_model_repository"):
             # metamodel has a global repo
@@ -821,10 +822,38 @@ class TextXMetaModel(DebugPrinter):
                 is_main_model=is_main_model,
             )
 
-        for p in self._model_processors:
-            p(model, self)
+        self._call_model_processors(model, known_models, is_main_model)
 
         return model
+
+    def _known_model_ids(self):
+        """
+        Models cached in the global repository (if any) before a load starts.
+        """
+        if hasattr(self, "_tx_model_repository"):
+            return {id(m) for m in self._tx_model_repository.all_models}
+        return set()
+
+    def _call_model_processors(self, model, known_models, is_main_model=True):
+        try:
+            for p in self._model_processors:
+                p(model, self)
+        except:  # noqa
+            if not is_main_model:
+                # cleaned up by the load of the main model
+                raise
+            # The load failed: the models loaded by it must not stay in the
+            # repositories (models cached by earlier loads stay).
+            from textx.scoping import (
+                get_included_models,
+                remove_models_from_repositories,
+            )
+
+            models = [m for m in get_included_models(model) if hasattr(m, "_tx_metamodel")]
+            remove_models_from_repositories(
+                models, [m for m in models if id(m) not in known_models]
+            )
+            raise
 
     def register_model_processor(self, model_processor):
         """
